@@ -1,6 +1,7 @@
 import Shuttle.Drive.C18
 import Shuttle.Drive.C01
 import Shuttle.Drive.C02
+import Shuttle.Drive.C03
 import Shuttle.Drive.C05
 import Shuttle.Drive.C12
 import Shuttle.Drive.C13
@@ -14,6 +15,7 @@ def dispatch (line : String) : String :=
   | some (.list [.atom "C18", req]) => Drive.C18.handle req
   | some (.list [.atom "C01", req]) => Drive.C01.handle req
   | some (.list [.atom "C02", req]) => Drive.C02.handle req
+  | some (.list [.atom "C03", req]) => Drive.C03.handle req
   | some (.list [.atom "C05", req]) => Drive.C05.handle req
   | some (.list [.atom "C12", req]) => Drive.C12.handle req
   | some (.list [.atom "C13", req]) => Drive.C13.handle req
